@@ -247,6 +247,11 @@ def run_one(mod, case, ctx):
 def run_shard(prop, tier, seed, shard, nshards, only_index=None):
     t0 = time.time()
     verify_tree()
+    # the argument ledger goes in before the check module (and the catalogue) is imported: references they bind at import time
+    # (getattr(petl, name) in a loop) must be the counted ones
+    from petlmon import probes as _probes
+    ledger = _probes.ArgLedger()
+    ledger.install()
     mod = load_check(prop)
     from petlmon import findings
     scratch = tempfile.mkdtemp(prefix='petlmon-%s-' % prop)
@@ -304,7 +309,9 @@ def run_shard(prop, tier, seed, shard, nshards, only_index=None):
             mod.teardown(ctx)
     finally:
         cov.stop()
+        ledger.remove()
         shutil.rmtree(scratch, ignore_errors=True)
+    out['argledger'] = ledger.dump()
     out['obs'] = dict(ctx.obs)
     out['ops'] = dict(ctx.ops)
     out['nontrivial'] = sorted(ctx.nontrivial)
@@ -406,7 +413,11 @@ def main_check(prop, tier, seed):
     cov = {}
     samples = []
     vsig = Counter()
+    led_calls, led_kw = Counter(), {}
     for r in results:
+        led_calls.update(r.get('argledger', {}).get('calls', {}))
+        for fn_, d_ in r.get('argledger', {}).get('kwargs', {}).items():
+            led_kw.setdefault(fn_, Counter()).update(d_)
         vsig.update(r.get('vsig', {}))
         obs.update(r['obs'])
         ops.update(r['ops'])
@@ -470,6 +481,9 @@ def main_check(prop, tier, seed):
         'required_observations': required,
         'required_missing': missing,
         'anchor_line_coverage': anchor_cov,
+        # calls the check itself made to public petl functions, and the keyword arguments it passed (probes.ArgLedger)
+        'petl_calls_by_function': {fn_: {'calls': n_, 'keyword_arguments': dict(sorted(led_kw.get(fn_, {}).items()))}
+                                   for fn_, n_ in sorted(led_calls.items())},
         'known_findings_hit': {fid: k['count'] for fid, k in known.items()},
         'inconclusive_cases': len(inconclusive),
         'inconclusive_examples': inconclusive[:3],
